@@ -335,7 +335,7 @@ class Inst:
     def __len__(self):
         m = self._special('__len__')
         if m is None:
-            raise PyExc(TypeError, ('no len',))
+            raise TypeError('no len')       # host protocol (list() probes it); b_len converts
         return self._cls.interp.call(m, [], [])
 
     def __contains__(self, x):
@@ -886,7 +886,7 @@ class Interp:
         if isinstance(tgt, ast.Name):
             self.store(tgt.id, v, frame)
         elif isinstance(tgt, (ast.Tuple, ast.List)):
-            vs = list(v)
+            vs = list(self.iter_(v))
             star = [i for i, t in enumerate(tgt.elts) if isinstance(t, ast.Starred)]
             if star:
                 i = star[0]
